@@ -15,8 +15,8 @@ CHECKS = {
  "C03": ("PBT (proptest): differential against a transliteration of Jenkins' rand.c / isaac64.c, two routes (Rng, Core::generate)",
          "Generated seeds and seed_from_u64(0) x depths over >= 3 blocks so every block index and several refills are compared word by word.",
          "Trusts refmodel::isaac (constants mixed at run time; validated against crate vectors and the Python model).", "3/C03"),
- "C04": ("PBT (proptest): differential against Marsaglia's xor128 (outputs and state)",
-         "Generated non-zero seeds x step counts, every next_u32 and the successor state compared with xor128.",
+ "C04": ("PBT (proptest): differential against Marsaglia's xor128 (outputs and state); preimages of structured states; stateful mixed-call histories (next_u32 / next_u64 / fill_bytes) with state comparison after every call",
+         "Generated non-zero seeds x step counts, every next_u32 and the successor state compared with xor128; histories of all three output calls with every value and the state after every call compared with xor128.",
          "Trusts the 6-line xor128 model and the crate's ==.", "3/C04"),
  "C05": ("PBT (proptest), stateful: random and block-boundary-focused operation histories (incl. >= 64 KiB fills, unaligned destinations) vs a projection model fed by a native-width twin; libFuzzer target fz_hist (thorough)",
          "Histories of next_u32/next_u64/fill_bytes(n) from every buffer index for 19 types + scripted JitterRng; each returned value is predicted from the twin's native word stream by projection rules written from the statement; final re-synchronisation catches skipped/repeated words.",
@@ -24,8 +24,8 @@ CHECKS = {
  "C06": ("PBT (proptest) + GF(2) algebra: jump()/long_jump() vs T^(2^(n/2)), T^(2^(3n/4)) with T extracted from the running code; all basis states + generated states + preimages of structured targets, linearity, metamorphic commutation",
          "The step matrix T is read off the real code on the n basis states; J and L by repeated squaring; jump/long_jump are executed on all basis states and on generated states and must land on J*s / L*s; linearity of jump on generated pairs extends the basis result to all states; model-free commutation relations in addition.",
          "Assumes GF(2)-linearity of next and jump outside the sampled states (BLR-sampled); state observation through validated serde images.", "5/C06"),
- "C07": ("PBT (proptest) + GF(2) algebra: extracted step matrix, rank, Berlekamp-Massey minimal polynomial of real state sequences, primitivity via the full factorisation of 2^n-1; cycle probes",
-         "Generated states validate that the code's step is the linear map T (linearity, agreement, T^k vs k real steps); rank n gives bijectivity; a degree-n primitive minimal polynomial gives a single cycle of length 2^n-1 on the non-zero states. Thorough adds the independent matrix-order route.",
+ "C07": ("PBT (proptest) + GF(2) algebra: extracted step matrix, rank, Berlekamp-Massey minimal polynomial of real state sequences, primitivity via the full factorisation of 2^n-1; cycle probes; API-seeded generators never in the zero state",
+         "Generated states validate that the code's step is the linear map T (linearity, agreement, T^k vs k real steps); rank n gives bijectivity; a degree-n primitive minimal polynomial gives a single cycle of length 2^n-1 on the non-zero states. Thorough adds the independent matrix-order route. The consequence for users (every public constructor with hostile inputs: never the zero state, never back at the start within the first steps) is checked directly.",
          "Assumes linearity outside the sampled states and primality of the 13 hard-coded factors (products verified at start-up).", "5/C07"),
  "C08": ("PBT (proptest): validity predicates over every constructor with zero/near-zero seeds, special u64s and zero-block sources; near-equal seed pairs",
          "Every seeding path of the 15 linear types with hostile inputs: result != zero-state generator, documented replacement, verbatim use, zero blocks remapped/redrawn with exact byte accounting, distinct seeds give != generators.",
@@ -48,8 +48,8 @@ CHECKS = {
  "C14": ("PBT (proptest) crash oracle in an overflow-checked build (catch_unwind + recording panic hook); libFuzzer targets with ASan (thorough)",
          "All generators, constructors, sources, hostile lengths/histories/timers executed with overflow checks and debug assertions on; any panic outside the harness is a violation keyed on (message, file).",
          "Build profile of the harness has overflow-checks and debug-assertions on; set_rounds(0) excluded by construction.", "4/C14"),
- "C15": ("PBT (proptest) + GF(2) algebra through cfg(rngs_verif) hooks: affinity triples, rank of extracted 64x64 maps, differential and birthday collision search",
-         "Fold (in pool and in time), stir and whole collections observed on the real code; affine + rank 64 decides bijectivity; model-free collision searches cover non-affine redesigns. Only an executed collision is reported.",
+ "C15": ("PBT (proptest) + GF(2) algebra through cfg(rngs_verif) hooks: affinity triples, rank of extracted 64x64 maps, special points, differential / birthday / orbit-related collision search",
+         "Fold (in pool and in time), stir and whole collections observed on the real code; affine + rank 64 decides bijectivity; model-free collision searches (differentials, birthday, inputs related by the step's own building blocks) cover non-affine redesigns; the fold is also observed with variable loop counts. Only an executed collision is reported.",
          "Assumes affinity outside sampled triples; hooks only read/set the pool and call the private stir.", "5/C15"),
  "C16": ("PBT (proptest), stateful: twin relations R1-R3 and read-count bookkeeping R4 over histories with clones on scripted timers",
          "u32;u32 == halves of u64 with zero reads in the second call; a pending half never influences a later output; a clone's first output is a fresh collection; every needed collection reads the timer >= rounds times.",
@@ -60,7 +60,7 @@ CHECKS = {
  "C18": ("cross-configuration differential: one proptest-generated corpus replayed by vdigest built in {O0,O3} x {checks on,off} x {serde on,off}",
          "6900 (thorough 69000) generated cases over all generator types, cores and scripted JitterRng replayed in 4 (8) build configurations; digests must agree line by line; a disagreement is delta-debugged with the two binaries as oracle.",
          "Only x86-64 is buildable here.", "6/C18"),
- "C19": ("PBT (proptest) with a harness-owned scheduler over real OS threads + unsynchronised parallel runs + fresh-process solo traces + enumerated 1-/2-bit seed pairs + compiled Send/Sync probe",
+ "C19": ("PBT (proptest) with a harness-owned scheduler over real OS threads + unsynchronised parallel runs + fresh-process solo and scenario traces (JitterRng through its whole API incl. rejected timers) + enumerated 1-/2-bit seed pairs + same-key constructor pairs and cross-type pairs + compiled Send/Sync probe",
          "Generated multi-instance scenarios with generated interleavings and thread migrations; every instance's trace must equal its solo replay before and after; free-running parallel groups; static Send+Sync assertions compiled against the tree.",
          "Interleavings inside one operation are not enumerated; JITTER_ROUNDS is outside the deterministic oracle.", "4/C19"),
 }
